@@ -299,12 +299,16 @@ def check(P: Project, R: Report) -> None:
         v = node.value
         if isinstance(v, ast.Name):
             # a pair kept under a name (`no_reply = (None, None)` … `return no_reply`): read as the pair it holds on this path
+            t_ = subst_text(v, st)
             try:
-                pv_ = ast.parse(subst_text(v, st), mode="eval").body
+                pv_ = ast.parse(t_, mode="eval").body
                 if isinstance(pv_, ast.Tuple) and len(pv_.elts) == 2:
                     v = pv_
             except SyntaxError:
                 pass
+            dn_ = an.defs.get(t_, ("", None))[1]
+            if isinstance(v, ast.Name) and isinstance(dn_, ast.Tuple) and len(dn_.elts) == 2:
+                v = dn_  # (the pair holds a call: it is kept as the term of its definition)
         resp = v.elts[0] if isinstance(v, ast.Tuple) and v.elts else v
         resp_t = subst_text(resp, st) if resp is not None else "None"
         is_list = f"isinstance({msg_p}, list)" in st.lits
